@@ -1003,7 +1003,7 @@ func c18Udp4pkt(c *Ctx, f *ssa.Function) {
 	}
 	lenP := "len(" + packet + ")"
 	chk := func(m map[string]string, fld, want, why string) {
-		r.Check(m[fld] == want, "C18-K5", key(fld+" = "+why), c.P.pos(f.Pos()), "symx of the field literal", fld+" is "+m[fld]+", want "+want)
+		r.Check(normSumStr(m[fld]) == normSumStr(want), "C18-K5", key(fld+" = "+why), c.P.pos(f.Pos()), "symx of the field literal (sums in additive normal form)", fld+" is "+m[fld]+", want "+want)
 	}
 	chk(ipF, "IHL", "const(20)", "20 (no options)")
 	chk(ipF, "TotalLength", "conv[uint16](bin[+](bin[+](const(20),const(8)),"+lenP+"))", "20 + 8 + len(payload)")
@@ -1022,12 +1022,27 @@ func c18Udp4pkt(c *Ctx, f *ssa.Function) {
 		r.Violation("C18-K5", key("TTL non-zero"), c.P.pos(f.Pos()), "TTL not set")
 	}
 	// sequence of calls: WriteN(20) → encode → setChecksum(^calc) → WriteN(8) → encode → setChecksum(^calc(xsum,len)) → WriteBytes(packet) → Data()
+	// calls in program order; the calls of an unexported helper of the package are spliced in at its call site
 	var calls []*ssa.Call
-	allInstrs(f, func(in ssa.Instruction) {
-		if cl, ok := in.(*ssa.Call); ok && cl.Call.StaticCallee() != nil {
-			calls = append(calls, cl)
+	helperSet := map[*ssa.Function]bool{}
+	for _, g := range marshalHelpers(c, f) {
+		if g != f && !token.IsExported(g.Name()) && g.Signature.Recv() == nil {
+			helperSet[g] = true
 		}
-	})
+	}
+	var collect func(g *ssa.Function, d int)
+	collect = func(g *ssa.Function, d int) {
+		allInstrs(g, func(in ssa.Instruction) {
+			if cl, ok := in.(*ssa.Call); ok && cl.Call.StaticCallee() != nil {
+				if helperSet[cl.Call.StaticCallee()] && d < 2 {
+					collect(cl.Call.StaticCallee(), d+1)
+					return
+				}
+				calls = append(calls, cl)
+			}
+		})
+	}
+	collect(f, 0)
 	idx := func(pred func(*ssa.Call) bool) int {
 		for i, cl := range calls {
 			if pred(cl) {
@@ -1098,4 +1113,46 @@ func c18Udp4pkt(c *Ctx, f *ssa.Function) {
 			r.Check(strings.HasPrefix(s, want) && strings.HasSuffix(s, ",field[boundAddr]("+sx.Of(g.Params[0]).String()+"))"), "C18-K5", "nclient4.WriteTo: sends udp4pkt(b, addr, boundAddr)", c.P.ipos(w), "symx", "transmits "+s)
 		}
 	}
+}
+
+// normSumStr: a symx string whose core is a sum bin[+](…) with nested sums and constants is rewritten to
+// sum(<constant total>,<sorted other terms>); conversions around it are kept. Other strings are returned unchanged.
+func normSumStr(s string) string {
+	pre, core, post := "", s, ""
+	for strings.HasPrefix(core, "conv[") && strings.HasSuffix(core, ")") {
+		i := strings.Index(core, "](")
+		if i < 0 {
+			break
+		}
+		pre += core[:i+2]
+		post = ")" + post
+		core = core[i+2 : len(core)-1]
+	}
+	if !strings.HasPrefix(core, "bin[+](") {
+		return s
+	}
+	var k int64
+	var terms []string
+	var flat func(e string)
+	flat = func(e string) {
+		if strings.HasPrefix(e, "bin[+](") && strings.HasSuffix(e, ")") {
+			in := e[len("bin[+](") : len(e)-1]
+			if i := splitTop(in, ","); i >= 0 {
+				flat(in[:i])
+				flat(in[i+1:])
+				return
+			}
+		}
+		if strings.HasPrefix(e, "const(") && strings.HasSuffix(e, ")") {
+			var v int64
+			if _, err := fmt.Sscanf(e[6:len(e)-1], "%d", &v); err == nil {
+				k += v
+				return
+			}
+		}
+		terms = append(terms, e)
+	}
+	flat(core)
+	sort.Strings(terms)
+	return pre + "sum(" + fmt.Sprint(k) + "," + strings.Join(terms, ",") + ")" + post
 }
